@@ -421,6 +421,26 @@ def native_sequences(chk):
             chk.violation('%s:pattern-order' % cat, 'analyze_dir depends on the order of the configured patterns', {'observed': fwd})
         else:
             chk.ok()
+        # every pattern of the category selected at once, on a directory whose files lie on BOTH sides of the version gates (0.7.6 / 0.8.13, both
+        # using SafeMath and revert strings): what one file makes of a pattern says nothing about the next file
+        from .. import reportlib as rl
+        every = [n_ for _, n_ in rl.CATS[cat]['table']]
+        gate = 'pragma solidity %s;\nlibrary SafeMath { function add(uint256 a, uint256 b) internal pure returns (uint256) { return a + b; } }\ncontract G%d {\n    using SafeMath for uint256;\n' \
+               '    uint256 total;\n    function f(uint256 a) public {\n        require(a > 1, "a revert string that is longer than thirty-two bytes");\n        total = total.add(a);\n    }\n}\n'
+        for vers in (('0.7.6', '0.8.13'), ('0.8.13', '0.7.6', '0.8.3')):
+            mroot = os.path.join(chk.native.dir, 'gate%d' % chk.native.n); chk.native.n += 1
+            os.makedirs(mroot)
+            for k, ver in enumerate(vers):
+                open(os.path.join(mroot, 'V%d.sol' % k), 'w').write(gate % (ver, k))
+            for sel in (every, every[::-1]):
+                got, want, raw = dl.native_union(chk, cat, mroot, sel)
+                chk.states += 1
+                if got is None or sorted(got) != sorted(want):
+                    chk.violation('%s:co-selected-patterns' % cat, 'analyze_dir with every %s pattern selected on files of the versions %r: returned %r, per-file union %r (missing %r)' % (
+                        cat, vers, got if got is not None else raw, want, sorted(set(want) - set(got or []))),
+                                  {'job': 'analyze_dir_files', 'category': cat, 'patterns': sel, 'files': [['V%d.sol' % k, gate % (ver, k)] for k, ver in enumerate(vers)], 'listing_by_creation': False, 'expected': want, 'observed': got})
+                else:
+                    chk.ok()
         # siblings that are not analysed (documentation, build output, test contracts, empty directories), at both ends of the listing: on a
         # file system that lists by creation history (tmpfs: newest first) the same tree is created contracts-first and contracts-last
         import shutil, tempfile
@@ -475,6 +495,27 @@ def dir_model(chk, cat):
                 mine = tuple(sorted((p, l) for p, nm, l in dl.result_triples(r) if nm is rec['name']))
                 seen.add(mine)
                 chk.ok()
+    # ... and whichever OTHER patterns are selected with it: every pattern of the category at once (table order and reversed) on two files and
+    # a sub-directory whose per-file results are all non-empty: each file must come back with a line for every pattern
+    from .. import reportlib as rl
+    allpats = [v for v, _ in rl.CATS[cat]['table']]
+    for ents in ([('file', 'A.sol', 'a')] + base_ents, base_ents + [('file', 'Z.sol', 'z'), ('dir', 'd', [('file', 'B.sol', 'b')])]):
+        for order in (allpats, allpats[::-1]):
+            tree = dl.Tree(ents)
+            fres = {(f['tag'], p): 'nonempty' for f in tree.files() for p in allpats}
+            dl.install_stubs(e, cat, tree, fres)
+            for r in dl.run_dir(e, cat, tree, list(order)):
+                if r.outcome != 'return':
+                    chk.undecide('analyze_dir model, all patterns: %s' % (r.value,)); continue
+                got = {}
+                for p_, nm, l in dl.result_triples(r):
+                    got.setdefault(id(nm), set()).add(p_)
+                lacking = {f['tag']: sorted(set(allpats) - got.get(id(f['name']), set())) for f in tree.files() if set(allpats) - got.get(id(f['name']), set())}
+                if lacking:
+                    chk.violation('%s:dir-model:co-selected-patterns' % cat, 'in the analyze_dir model with every %s pattern selected (%s order) some (file, pattern) pairs that have findings are '
+                                  'missing from the result: %r' % (cat, 'table' if order is allpats else 'reversed', lacking), {})
+                else:
+                    chk.ok()
     if len(seen) > 1:
         chk.violation('%s:dir-model:interference' % cat, 'in the analyze_dir model the findings of one file differ with siblings / listing order / pattern order: %r' % sorted(seen), {})
 
